@@ -136,10 +136,10 @@ def run(chk: Check, ctx: Any) -> None:
             chk.hold("C18-R1", key, d.method, "argument rule (below position_marker)")
             continue
         if rule in reach_pm:
-            ok = d.visits_children and d.returns_children
-            chk.decide("C18-R1", key, ok, d.method,
-                       f"{d.method.node.name} overrides the traversal of '{rule}', which can contain Position literals, without returning "
-                       "visitChildren(ctx): marks inside it are lost", "returns visitChildren(ctx)")
+            if d.visits_children and d.returns_children:
+                chk.hold("C18-R1", key, d.method, "returns visitChildren(ctx)")
+            else:
+                _manual_traversal(chk, g, key, rule, d.method)
         else:
             chk.hold("C18-R1", key, d.method, f"'{rule}' cannot contain position_marker")
     # aggregateResult / defaultResult
@@ -176,11 +176,6 @@ def run(chk: Check, ctx: Any) -> None:
         dr = astq.single_return_expr(dflt.node)
         chk.decide("C18-R1", "defaultResult", isinstance(dr, ast.List) and not dr.elts if dr is not None else None, dflt,
                    f"defaultResult returns {norm(dr) if dr is not None else '?'} instead of an empty list", "empty list")
-    vs = repo.find_method(cls, "visitStart")
-    if vs is not None and vs.cls == cls:
-        e = astq.single_return_expr(vs.node)
-        ok = e is not None and isinstance(e, ast.Call) and dotted(e.func) == "self.visitChildren"
-        chk.decide("C18-R1", "visitStart", ok or None, vs, "visitStart does not return visitChildren(ctx)", "returns visitChildren(ctx)")
 
     # R2 -------------------------------------------------------------------------------
     pm = g.rules["position_marker"]
@@ -254,6 +249,68 @@ def run(chk: Check, ctx: Any) -> None:
                 n_sites += 1
                 check_mark_construction(chk, ctx, "C18-R2", "C18-R3", f, c, None, False)
     chk.floor("C18-R3", "SourceMapPositionMark construction sites", n_sites, 5)
+
+
+def _manual_traversal(chk: Check, g: Any, key: str, rule: str, f: Func) -> None:
+    """An override that walks the children itself: complete and in source order?"""
+    fn = f.node
+    ctxp = astq.params_of(fn)[0] if astq.params_of(fn) else "ctx"
+    visits = [c for c in walk_no_nested(fn) if isinstance(c, ast.Call) and isinstance(c.func, ast.Attribute)
+              and c.func.attr in ("visit", "accept", "visitChildren")]
+    if not visits:
+        chk.violation("C18-R1", key, f, f"{fn.name} overrides the traversal of '{rule}', which can contain Position literals, "
+                                      "without visiting its children: marks inside it are lost")
+        return
+    # what is iterated?
+    accessors: list[str] = []
+    generic = False
+    for n in walk_no_nested(fn):
+        if isinstance(n, ast.Call) and isinstance(n.func, ast.Attribute) and isinstance(n.func.value, ast.Name) \
+                and n.func.value.id == ctxp and not n.args:
+            if n.func.attr in ("getChildren",):
+                generic = True
+            elif n.func.attr in g.rules:
+                accessors.append(n.func.attr)
+        if isinstance(n, ast.Attribute) and isinstance(n.value, ast.Name) and n.value.id == ctxp and n.attr == "children":
+            generic = True
+    reversed_iter = any(isinstance(n, ast.Call) and dotted(n.func) in ("reversed", "sorted") for n in walk_no_nested(fn))
+    if reversed_iter:
+        chk.violation("C18-R1", key, f, f"{fn.name} visits the children of '{rule}' in a re-ordered sequence: marks are not listed in source order")
+        return
+    if generic and not accessors:
+        chk.unknown("C18-R1", key, f, f"{fn.name} walks ctx.children itself; completeness of the aggregation not established")
+        return
+    # typed accessors: every child rule that can contain position_marker must be walked; and two accessors whose
+    # children can interleave in the grammar rule must not be concatenated
+    child_rules = {r for r in g.refs(rule) if r in g.rules and not g.rules[r].is_lexer}
+    need = {r for r in child_rules if "position_marker" in g.reachable(r)}
+    missing = sorted(need - set(accessors))
+    if missing:
+        chk.violation("C18-R1", key, f, f"{fn.name} walks only {sorted(set(accessors))} of '{rule}'; Position literals below {missing} are lost")
+        return
+    walked = [a for a in accessors if a in need]
+    if len(set(walked)) > 1 and _can_interleave(g, rule, set(walked)):
+        chk.violation("C18-R1", key, f,
+                      f"{fn.name} visits all {walked[0]} children and then all {walked[1]} children of '{rule}', but the grammar lets them "
+                      "alternate: the marks are not listed in source order")
+        return
+    chk.unknown("C18-R1", key, f, f"{fn.name} walks its children by hand ({walked}); aggregation order not established")
+
+
+def _can_interleave(g: Any, rule: str, names: set[str]) -> bool:
+    """Do two of the named child rules occur inside one repeated group of ``rule``?"""
+    def walk(alts: list[Any], repeated: bool) -> bool:
+        for s in alts:
+            for e in s.elems:
+                if e.kind == "group":
+                    inner = {x.value for a in e.value for x in a.elems if x.kind == "ref"}
+                    rep = repeated or e.suffix.startswith(("*", "+"))
+                    if rep and len(inner & names) > 1:
+                        return True
+                    if walk(e.value, rep):
+                        return True
+        return False
+    return walk(g.rules[rule].alts, False)
 
 
 def _tuple_roles(chk: Check, ctx: Any, marker_handler: Any, arg_handler: Any) -> None:
